@@ -153,7 +153,7 @@ def eval_doc(args):
     # the same for JsonML data: character data put between the children of an element-only content, a changed fixed attribute
     try: jbase = s.decode(doc, converter=xmlschema.JsonMLConverter)
     except Exception: jbase = None
-    for _ in range(3 if jbase is not None else 0):
+    for jm in range(6 if jbase is not None else 0):
         n += 1
         m = copy.deepcopy(jbase)
         lists = []
@@ -164,7 +164,11 @@ def eval_doc(args):
         walk(m)
         x = rng.choice(lists)
         first = 2 if len(x) > 1 and isinstance(x[1], dict) else 1          # well-formed JsonML: the attribute dict stays in second position
-        if rng.random() < .7: x.insert(rng.randrange(first, len(x) + 1), rng.choice(['txt', ' t ', '0']))
+        tags = sorted({y[0] for y in lists}) + ['thing', 't:thing']
+        if jm == 3: x[0] = rng.choice([t for t in tags if t != x[0]])                 # another tag on some item, the rest kept
+        elif jm == 4: del x[1:]; x[0] = rng.choice(tags)                               # some item reduced to its bare-tag form, possibly with another tag
+        elif jm == 5: m = [rng.choice([t for t in tags if t != m[0]])]                  # the whole data is a bare tag that is not the root's
+        elif rng.random() < .7: x.insert(rng.randrange(first, len(x) + 1), rng.choice(['txt', ' t ', '0']))
         elif len(x) > 1 and isinstance(x[1], dict) and 'ver' in x[1]: x[1]['ver'] = rng.choice([3, '2x', 2.5])
         try: e = s.encode(m, converter=xmlschema.JsonMLConverter)
         except xmlschema.XMLSchemaException: continue
@@ -176,6 +180,29 @@ def eval_doc(args):
             if not (reasons and all(('xs:ID' in r_ or 'IDREF' in r_ or 'duplicated value' in r_ or 'not found for' in r_) for r_ in reasons)):
                 bad.append(('soundness-jsonml', f'strict encode returned invalid XML for {str(m)[:160]}: {[r_[:60] for r_ in reasons][:1]}'))
     return dict(doc=doc, ver=ver, bad=bad[:4], cases=n)
+
+
+BARE_PATHS = ['t:r/t:item/t:note', 't:r/t:item/t:mix', 't:r/t:item/u', 't:r/t:item/t:name', 't:r/t:item/t:box', 't:r/t:item', 't:r']
+
+
+def eval_bare(ver):
+    """strict encode of data for the element that `path` selects, every converter: data whose tag is not that element's (a bare JsonML ['tag'], a JsonML item with an attribute or
+    a text, a data element with another tag) - the call raises a library error or returns an element that carries the selected declaration's name and that the declaration accepts"""
+    import xmlschema
+    s = _S.get(ver) or _S.setdefault(ver, _cls(ver)(SCHEMA)); bad = []; n = 0
+    for path in BARE_PATHS:
+        xe = s.find(path, namespaces=NS); own = 't:' + xe.local_name if xe.qualified else xe.local_name
+        for tag in ('thing', 't:thing', 't:end', 'u', 't:r', own):
+            forms = [('jsonml', [tag]), ('jsonml', [tag, 'x']), ('jsonml', [tag, {'lang': 'en'}]), ('jsonml', [tag, {'k': '1'}, 'x']),
+                     ('dataelement', xmlschema.DataElement(tag=('{urn:t}' + tag[2:] if tag.startswith('t:') else tag), value='x'))]
+            for cname, data in forms:
+                n += 1
+                try: e = s.encode(data, path=path, namespaces=NS, converter=converters()[cname])
+                except xmlschema.XMLSchemaException: continue
+                except Exception as exn: bad.append(dict(ver=ver, path=path, data=repr(data), observed=f'raised {type(exn).__name__}: {str(exn)[:80]}')); continue
+                if not xe.is_matching(e.tag): bad.append(dict(ver=ver, path=path, data=repr(data), observed=f'returned <{e.tag}> for the declaration of {xe.name}'))
+                elif not xe.is_valid(e): bad.append(dict(ver=ver, path=path, data=repr(data), observed=f'returned an element the declaration refuses: {[x.reason[:60] for x in xe.iter_errors(e)][:1]}'))
+    return n, bad
 
 
 def run(tier, seed, open_findings):
@@ -195,11 +222,17 @@ def run(tier, seed, open_findings):
             if r['doc'] in L1 and 'decode/encode raised XMLSchemaValidationError' in str(b[1]) and K1 in open_findings: known[K1] = known.get(K1, 0) + 1; continue
             fails.append(dict(case=dict(doc=r['doc'], ver=r['ver'], mseed=j[2]), observed=list(b), required='valid, structurally equal, same data; strict encode raises or returns valid XML'))
     cases = sum(r['cases'] for r in res)
+    for nb, bb in pmap(eval_bare, ['1.0', '1.1'], chunk=1):
+        cases += nb
+        fails.extend(dict(case=dict(ver=b['ver'], bare=[b['path'], b['data']]), observed=b['observed'], required='strict encode raises or returns XML the selected declaration accepts') for b in bb)
     return [result('C05.roundtrip_and_encode_soundness', f'{len(docs)} generated valid documents x 2 classes x (5 converters round trip + 6 mutated data sets for strict encode)', cases, fails, known=known,
                    samples=[dict(doc=docs[0][:200])], distinct=cases)]
 
 
 def replay(check_name, case):
+    if case.get('bare'):
+        bb = [b for b in eval_bare(case['ver'])[1] if [b['path'], b['data']] == list(case['bare'])]
+        return dict(ok=not bb, observed=bb[:1], required='strict encode raises or returns XML the selected declaration accepts')
     if case.get('dup_item'):
         s = _cls(case['ver'])(SCHEMA); d = s.decode(case['doc']); d['t:item'] = d['t:item'] + d['t:item'][:1]
         try: e = s.encode(d, path='t:r', namespaces=NS)
